@@ -30,13 +30,17 @@ class Ctx:
         else:
             self.fail("obligation:" + name, "obligation %s no longer checks %s" % (name, detail), kind="obligation", no_input=True)
 
-    def go(self, pkgdir, run, files, helper_pkg, env=None, timeout=600, race=False, extra=(), rewrites=None):
+    def go(self, pkgdir, run, files, helper_pkg, env=None, timeout=600, race=False, extra=(), rewrites=None, instrument=None):
         """Run an overlaid harness test; returns its records."""
         out_path = os.path.join(vlib.GEN, "out", "%s_%s_%d.jsonl" % (self.prop, run.strip("^$").replace("/", "_"), os.getpid()))
         os.makedirs(os.path.dirname(out_path), exist_ok=True)
         if os.path.exists(out_path):
             os.remove(out_path)
         fmap = {os.path.join(pkgdir, "zz_verif_" + os.path.basename(f)): os.path.join(vlib.HARNESS, "overlay", f) for f in files}
+        if instrument:
+            mapping, labels = vlib.instrument_sources(instrument)
+            fmap.update(mapping)
+            self.gate_labels = labels
         for rel, subs in (rewrites or {}).items():
             path, counts = vlib.rewrite_source(rel, subs)
             fmap[rel] = path
